@@ -4,7 +4,7 @@
 # everywhere); `cap` only stops submission of new chunks on a slow host.
 PROPS = {
     "C02": dict(machine="solver", level="fault_enumeration",
-                quick=dict(runs=80000, cap=60, selftest=200),
+                quick=dict(runs=80000, cap=80, selftest=200),
                 thorough=dict(runs=800000, cap=900, selftest=2000)),
     "C09": dict(machine="c09", level="fault_enumeration",
                 quick=dict(runs=10000, cap=60, selftest=150),
@@ -25,7 +25,7 @@ PROPS = {
                 quick=dict(runs=8000, cap=80, selftest=100),
                 thorough=dict(runs=150000, cap=1200, selftest=1000)),
     "C20": dict(machine="helpers", level="exploration", pure="pure_clauses",
-                quick=dict(runs=80000, cap=60, selftest=200),
+                quick=dict(runs=80000, cap=90, selftest=200),
                 thorough=dict(runs=600000, cap=900, selftest=2000)),
 }
 
